@@ -382,7 +382,7 @@ def elabLeaf (s : NodeSpec) : NodeD :=
     defaultOpen := s.defaultOpen, cache := s.cache, inner := 0
     mapOver := [], mapMode := .zip, errMode := .raise }
 
-/-- `_signal_only_outputs` (helpers.py): outputs of the inner graph that no inner node produces as DATA (a nested-graph node inside
+/-- `_signal_only_outputs` (helpers.py): those of the given (exposed) outputs of the inner graph that no inner node produces as DATA (a nested-graph node inside
 produces as data whatever it exposes that is not itself signal-only) -/
 def signalOnly (nodes : List NodeD) (outs : List Name) : List Name :=
   outs.filter fun o => !(nodes.any fun n =>
@@ -414,7 +414,8 @@ def elabGraphNode (s : NodeSpec) (g : GraphD) : NodeD :=
     body := s.body, targets := [], multiTarget := false, fallback := .none
     defaultOpen := true, cache := false, inner := s.inner
     mapOver := s.mapOver, mapMode := s.mapMode, errMode := s.errMode
-    signalOuts := (signalOnly g.nodes (graphOutputs g.nodes)).map fun o => renameOf s.outRen o }
+    -- (only among what the node EXPOSES — fix 4b4565d: a hidden inner signal says nothing about an exposed data output renamed to its name)
+    signalOuts := (signalOnly g.nodes innerOuts).map fun o => renameOf s.outRen o }
 
 def elabNode (done : List GraphD) (s : NodeSpec) : NodeD :=
   if s.kind == .graph then elabGraphNode s (done.getD s.inner default) else elabLeaf s
